@@ -14,7 +14,10 @@ SPEC = {
         "on a heap Nat -> {prev,next,owner,val} with two sentinel-rooted lists",
         "threadSafeList = the same calls under one RWMutex: sequentially the same function; both flavours are executed by the harness",
         "nil dereference and the 'unsupported ListElement type' panics are NOT modelled (unreachable from well-formed states); len is a Nat",
-        "handles that were live when Init was called on their list are excluded by hypothesis (okRun) and compared two-way only"],
+        "handles that were live when Init was called on their list are excluded by hypothesis (okRun) and compared two-way only "
+        "(systematically: stale-focused histories, comparison continues through corrupted rings and negative Len)",
+        "concurrency of the thread-safe flavour is NOT modelled in Lean; it is smoke-tested by the harness (stress + forced "
+        "two-writer schedules behind a parked reader; oracle: no panic/deadlock, well-formed ring, Len, element multiset)"],
     "manifest": {
         "text": "Pointer-level Lean model of ds.List (heap of prev/next/owner/val nodes, two sentinel rings, the same loads/stores as "
                 "insert/remove/move) with theorems over every history: the ring well-formedness invariant is preserved "
@@ -25,7 +28,8 @@ SPEC = {
                 "Lean driver vs Go's container/list on random two-list histories with live, removed, foreign, stale and nil handles.",
         "note": "Trusted: Lean kernel; the hand-written model (tie = differential execution); container/list as reference. Histories "
                 "passing handles that were live before an Init are outside the theorems (both libraries leave them unspecified) and "
-                "are compared hive-vs-container/list only. Concurrency of the thread-safe flavour is not part of C10.",
+                "are compared hive-vs-container/list only. Concurrency of the thread-safe flavour is outside the theorems; the harness "
+                "smoke-tests it (stress rounds, forced double-Remove schedules) with an in-Go oracle.",
         "technique": "Lean 4 refinement proof (pointer-level ring invariant, ghost abstract sequence) + three-way differential correspondence",
     },
     "assumptions": ["no operation is given a handle that was live in a list when Init was called on that list (okRun)",
